@@ -50,21 +50,21 @@ Section LiveGen.
   Notation PL f := (f psi_grad_full psi_yhat grad_L grad_psi lb ub dir_apply has_initial P x_in y_in Σ errz_in ls_fuel).
 
   Notation it := (iterate (T:=R)).
-  Notation lsloop := (ls_loop psi_grad_full psi_yhat grad_L lb ub l1 never P).
-  Notation pass_ := (pass psi_grad_full psi_yhat grad_L lb ub l1 dir_apply has_initial never never P x_in y_in Σ errz_in ls_fuel).
-  Notation loop_ := (loop psi_grad_full psi_yhat grad_L lb ub l1 dir_apply has_initial never never P x_in y_in Σ errz_in ls_fuel).
+  Notation lsloop := (ls_loop psi_grad_full psi_yhat grad_L grad_psi lb ub l1 never P).
+  Notation pass_ := (pass psi_grad_full psi_yhat grad_L grad_psi lb ub l1 dir_apply has_initial never never P x_in y_in Σ errz_in ls_fuel).
+  Notation loop_ := (loop psi_grad_full psi_yhat grad_L grad_psi lb ub l1 dir_apply has_initial never never P x_in y_in Σ errz_in ls_fuel).
   Notation panoc_ := (panoc psi_grad_full psi_yhat grad_L grad_psi lb ub l1 dir_apply has_initial never never P x_in y_in Σ errz_in ls_fuel).
   Notation pgrad := (psi_grad psi_grad_full).
   Notation eps_of := (it_eps lb ub l1 P).
-  Notation Consistent := (consistent psi_grad_full psi_yhat grad_L lb ub l1 P).
+  Notation Consistent := (consistent psi_grad_full psi_yhat grad_L grad_psi lb ub l1 P).
   Notation Glrel0 := (glrel0 psi_grad_full grad_psi P x_in).
   Notation Linit := (L_init psi_grad_full grad_psi P x_in).
   Notation Inv_ := (Inv psi_grad_full psi_yhat grad_L grad_psi lb ub l1 P x_in).
-  Notation check_it := (check_iterate grad_L P).
+  Notation check_it := (check_iterate grad_L grad_psi P).
 
   Variables (ψ : list R -> R) (g : list R -> list R) (n : nat) (Lf ψinf : R).
   Hypothesis Hpsi : forall x, pgrad x = (ψ x, g x).
-  Hypothesis Hco : coherent psi_grad_full psi_yhat grad_L P.
+  Hypothesis Hco : coherent psi_grad_full psi_yhat grad_L grad_psi P.
   Hypothesis Hglen : forall x, length x = n -> length (g x) = n.
   Hypothesis Hqub : forall u d, length u = n -> length d = n ->
     ψ (vadd u d) <= ψ u + vdot (g u) d + Lf / 2 * vsqnorm d.
@@ -175,14 +175,14 @@ Section LiveGen.
     assert (G0 : good (check_it s)) by (apply (good_core (st_curr s)); [now symmetry|exact G]).
     assert (Efbe : it_fbe (check_it s) = it_fbe (st_curr s)) by (now apply (PP fbe_core)).
     destruct (pass_ s) as [o|s'|] eqn:Ep; [| |exfalso; now apply Hnf].
-    - left. exists o. destruct (pass_exit_shape psi_grad_full psi_yhat grad_L lb ub dir_apply has_initial P x_in y_in Σ errz_in ls_fuel s o Ep) as (E1 & E2 & E3).
+    - left. exists o. destruct (pass_exit_shape psi_grad_full psi_yhat grad_L grad_psi lb ub dir_apply has_initial P x_in y_in Σ errz_in ls_fuel s o Ep) as (E1 & E2 & E3).
       assert (Hst : out_status o = StConverged).
-      { rewrite E1. destruct (status_cases grad_L lb ub P s Hkm Hnp) as [Ec|[Eb _]]; [exact Ec|contradiction]. }
+      { rewrite E1. destruct (status_cases grad_L grad_psi lb ub P s Hkm Hnp) as [Ec|[Eb _]]; [exact Ec|contradiction]. }
       split; [reflexivity|]. split; [exact Hst|]. split; [exact E2|].
       destruct (pass_exit_x s o Ep Hst) as [Ex Ee]. exists (check_it s). repeat (split; [assumption|]). exact Ee.
     - right. exists s'. split; [reflexivity|].
       destruct (PL pass_cont_shape n Hdir s s' Ep) as (Eb & q & τi & upd & c & st & l & Hτ & Hq & Hls). cbv zeta in Hls.
-      destruct (status_cases grad_L lb ub P s Hkm Hnp) as [Ec|[_ Hepsb]]; [rewrite Ec in Eb; discriminate|].
+      destruct (status_cases grad_L grad_psi lb ub P s Hkm Hnp) as [Ec|[_ Hepsb]]; [rewrite Ec in Eb; discriminate|].
       set (c0 := check_it s) in *.
       assert (Hpp : δ * δ < ipp c0).
       { destruct (Rlt_le_dec (δ * δ) (ipp c0)) as [Hlt1|Hle]; [exact Hlt1|]. pose proof (Heps c0 Cc Chave G0 Hle). lra. }
@@ -281,7 +281,7 @@ Section LiveKkt.
   Notation Linit := (L_init psi_grad_full grad_psi P x_in).
   Variables (ψ : list R -> R) (g : list R -> list R) (n : nat) (Lf ψinf Lg : R).
   Hypothesis Hpsi : forall x, pgrad x = (ψ x, g x).
-  Hypothesis Hco : coherent psi_grad_full psi_yhat grad_L P.
+  Hypothesis Hco : coherent psi_grad_full psi_yhat grad_L grad_psi P.
   Hypothesis Hglen : forall x, length x = n -> length (g x) = n.
   Hypothesis Hqub : forall u d, length u = n -> length d = n ->
     ψ (vadd u d) <= ψ u + vdot (g u) d + Lf / 2 * vsqnorm d.
@@ -323,7 +323,7 @@ Section LiveKkt.
   Lemma delta_kkt_pos : 0 < delta_kkt.
   Proof. unfold delta_kkt. apply Rdiv_lt_0_compat; [apply tol_pos|apply kkt_den_pos]. Qed.
 
-  Lemma eps_small_kkt i : consistent psi_grad_full psi_yhat grad_L lb ub l1 P i -> (need_gradh P = true -> ihave i = true) -> good i ->
+  Lemma eps_small_kkt i : consistent psi_grad_full psi_yhat grad_L grad_psi lb ub l1 P i -> (need_gradh P = true -> ihave i = true) -> good i ->
     ipp i <= delta_kkt * delta_kkt -> it_eps lb ub l1 P i <= tol.
   Proof.
     intros Hc Hhave G Hs. pose proof (g_facts _ _ _ _ _ _ _ _ _ _ i G) as F.
